@@ -341,7 +341,13 @@ func TestZZVerifC02Trace(t *testing.T) {
 				cur = next
 			}
 
-			w.put(map[string]any{"ev": "cfg", "ci": ci, "step": step, "cfg": cur, "lists": z.texts})
+			logged := cur
+			if z.protOff {
+				// the flag was set during a running pause and the server
+				// reports that the pause still holds (see setProt)
+				logged.Prot = "paused"
+			}
+			w.put(map[string]any{"ev": "cfg", "ci": ci, "step": step, "cfg": logged, "lists": z.texts})
 			for qi := 0; qi < 20; qi++ {
 				var ans []zzC0102RR
 				for k, na := 0, rng.Intn(6); k < na; k++ {
